@@ -14,3 +14,23 @@ CLAIMS = {
          "text": "Bounded symbolic check (cbmc, IEEE float model) of required_base/optional_base as instantiated by the 22 built-in types and by 46 sbeppc-generated types (with/without explicit min/max/null, NaN/INF nulls): for ALL pairs of underlying bit patterns, ==,!=,<,<=,>,>=, has_value, bool, value_or, in_range, default/nullopt construction equal the reference definition; min/max/null constants equal the SBE table resp. the XML values. C++17 (hand-written operators) and C++20 (operator<=>) are separate IR."},
 }
 for k in CLAIMS: NA.pop(k, None)
+
+CLAIMS.update({
+ "C01": {"level": "translation_validation", "ref": "DESIGN.md §6 C01",
+         "text": "For every message of the verification schemas (both byte orders; sbeppc rebuilt from /repo generates the headers) cbmc proves, from an ARBITRARY prior image, that each generated setter (all primitive/enum/set/array-element/composite-member fields at root, in flat and nested group entries; group resize; data resize and element store) writes exactly the reference bytes at the position the wire values imply and leaves every other byte unchanged -- one inductive step, so any in-order setter sequence yields the reference image. Includes a <data> of any uint8 length 0..255 in front of another member."},
+ "C02": {"level": "translation_validation", "ref": "DESIGN.md §6 C02",
+         "text": "For every message of the verification schemas cbmc proves that each generated getter (value, enum, set, constants, array elements/data(), composite views, group size/address/entries, data size/bytes) returns exactly the byte-level reference decode at the reference position, bit-exact (floats as bit patterns, all NaN payloads), for every image within the geometry bounds; C++17 (memcpy+bswap) and C++20 (bit_cast+reverse_copy) paths; the buffer is never written."},
+ "C03": {"level": "translation_validation", "ref": "DESIGN.md §6 C03",
+         "text": "Same obligations as C01/C02 plus size_bytes of message/group/entry/data and the one-step cursor protocol, with the wire blockLength of the root block and of every group symbolic in [compiled, compiled+E] independently per level: every compiled field, entry, nested group and data member is found where the wire image puts it."},
+ "C04": {"level": "translation_validation", "ref": "DESIGN.md §6 C04",
+         "text": "One-step cursor protocol: for every member of every level and the five cursor kinds (plain, init, dont_move, init_dont_move, skip), from EVERY cursor position inside the buffer object: a legal pre-state yields the random-access value/view and leaves the cursor at the documented position (chain: position after member k is the required position before member k+1); every other pre-state is reported through the assertion handler (checked build). Arbitrary images, extension E>0."},
+ "C05": {"level": "translation_validation", "ref": "DESIGN.md §6 C05",
+         "text": "R1: size_bytes of message, every group, entry and data member, the cursor-based size after skipping every member, and message_traits::size_bytes(actual counts, total data) all equal the length of the reference image (small scope). Trait formulas: message/group traits size_bytes == reference formula for ALL argument values. R2: flat-group size_bytes for the 16 dimension pairs and data size_bytes for the 4 length types with header values over their whole type range (products beyond 2^31/2^32)."},
+ "C12": {"level": "model_checking", "ref": "DESIGN.md §6 C12",
+         "text": "For all 16 (numInGroup, blockLength) type pairs generated by sbeppc: symbolic iterator operation sequences (depth 3 over ++,--,+=,-=,+,-,n+it,it++,it--), comparisons/distances, it[n], (it+n)-n, begin/end/size, operator[]/front/back, range-for addresses, size_bytes, resize/clear frame -- all header contents in a small scope (size<=3, blockLength 0..4); nested groups: forward iteration addresses, size/front, resize/clear frame."},
+ "C13": {"level": "model_checking", "ref": "DESIGN.md §6 C13",
+         "text": "Each of the 19 dynamic_array_ref operations (push_back, pop_back, 6 insert forms, 2 erase forms, 3 resize forms, 4 assign forms, assign_string, assign_range, clear, observers) from EVERY state (any length prefix <= CAP, any payload) with symbolic arguments equals the std::vector model: new prefix, payload, returned iterator, frame outside the area in use, no handler for valid vector operations. 4 length types x 2 byte orders x {char,uint8,int8}."},
+ "C14": {"level": "model_checking", "ref": "DESIGN.md §6 C14",
+         "text": "static_array_ref<char,char,N> for N=0..5 (0..8 thorough): assign_string (C string and range, 3 eos modes), assign_range, assign(first,last), assign(ilist), fill, assign(count,v), strlen, strlen_r against the documented byte-level spec for all array contents, all inputs of length <= N, with guard bytes on both sides and the returned iterator."},
+})
+for k in CLAIMS: NA.pop(k, None)
